@@ -61,7 +61,8 @@ func probePlan(name string) *Plan {
 		p.Init[1] = Init{}
 		ph.Ops[0] = []*Op{{K: OpHeaders, S: 1, Fields: req, Pad: -1}, {K: OpData, S: 1, N: 100, Pad: -1, End: true}}
 		ph.Ops[1] = []*Op{{K: OpHeaders, S: 1, Fields: resp, Pad: -1, End: true, WaitHdr: true}}
-		ph.After = []Change{{E: 1, ID: http2.SettingInitialWindowSize, Val: 50, Lower: true}}
+		ph.EndAmple[1] = false // no WINDOW_UPDATE on stream 1: its window must go negative
+		ph.After = []Change{{E: 1, ID: http2.SettingInitialWindowSize, Val: 50, Lower: true, NoDrain: true, WaitRecv: 100}}
 		ph2 := &Phase{EndAmple: [2]bool{true, true}}
 		ph2.Ops[0] = []*Op{{K: OpPriority, S: 1, Prio: &http2.PriorityParam{Weight: 9}}}
 		p.Phases = append(p.Phases, ph2)
